@@ -60,6 +60,16 @@ def _search_state_tree(here, out, depth=4):
         return {"cmd": ["st_replay", "survivors", m.group(1), m.group(2)], "old": m.group(1), "new": m.group(2),
                 "clause": m.group(3), "tried": int(m.group(4))}, ""
     note += "; " + p.stdout.strip()[-200:]
+    # ... with identically shaped siblings, children only removed or only added ("up to exchange among identically shaped siblings")
+    try:
+        p = subprocess.run([exe, "survivors-search-dups", "4"], capture_output=True, text=True, timeout=600)
+    except subprocess.TimeoutExpired:
+        return None, note + "; duplicate-siblings search timeout"
+    m = re.search(r"FOUND old=(\S+) new=(\S+) clause=(.*?) tried=(\d+)", p.stdout)
+    if m:
+        return {"cmd": ["st_replay", "survivors-dups", m.group(1), m.group(2)], "old": m.group(1), "new": m.group(2),
+                "clause": m.group(3), "tried": int(m.group(4))}, ""
+    note += "; " + p.stdout.strip()[-200:]
     # ... and on the second family (similar function-call siblings; a prefix removed, fresh leaves appended)
     try:
         p = subprocess.run([exe, "survivors-search-similar", "4"], capture_output=True, text=True, timeout=600)
